@@ -1,6 +1,7 @@
 import Uhppote.Model.Driver
 import Uhppote.Gen.Driver
 import Uhppote.Props.C09
+import Uhppote.Gen.Source
 /-! # C08 — concurrent use is race-free and replies are never crossed between calls (partial)
 
 (a) *No crossing.* With bind port 0 every call has its own ephemeral socket (kernel). With a
@@ -152,5 +153,11 @@ theorem C08_listener_closed_flag_ordered :
 /-! non-vacuity -/
 example : TimelyTrace init [.acquire 1, .arrive 1, .acquire 2, .arrive 2] := by simp [TimelyTrace, step, init]
 example : (run init [.acquire 1, .arrive 1, .acquire 2, .arrive 2]).crossed = false := by decide
+
+/-- the client and the driver are immutable after construction: no method stores into its receiver (regenerated
+    list of such statements: empty), so goroutines sharing one client share only what they read; what they do share
+    for writing is the bind-port mutex, the socket of each call and the discovery collector, which the facts above
+    cover -/
+theorem C08_client_immutable : Gen.Source.receiverWrites = [] := by decide
 
 end Uhppote.Props.C08
